@@ -5,6 +5,7 @@ package sim
 
 import (
 	"fmt"
+	"regexp"
 	"sort"
 	"strconv"
 	"strings"
@@ -179,9 +180,49 @@ func (m *c02) OnVals(cfgID string, keys []string, w WriteRec) {
 	}
 }
 
+// pushedBefore: the device has already accepted a Set of the proposal of transaction i (the applied values may be ahead of
+// the applied index after a crash or a failed write between the two writes that record an apply - the value is then not
+// "ahead of the chain", the device holds it already).
+func (m *c02) pushedBefore(target string, i uint64) bool {
+	// (called from the device's Set hook, which runs with the device's lock held)
+	for _, q := range m.s.Devs[target].Log {
+		if t, j, ok := taskProposal(q.Task); ok && t == target && j == i && (q.Outcome == "ok" || q.Outcome == "apply-then-drop") {
+			return true
+		}
+	}
+	return false
+}
+
+var uniqueValue = regexp.MustCompile(`^(s:v\d+|u:\d{6,}|i:-\d+)$`)
+
 func (m *c02) OnDevSet(target string, q *DevReq) {
 	s := m.s
 	if isResyncTask(q.Task) {
+		// A re-synchronisation repeats what has been applied: it must not carry the value of a change that has not been
+		// applied yet (that would push it ahead of the changes still waiting in the chain). Values the scenario made
+		// unique are attributed to the transaction that wrote them.
+		c := s.Rec.Cfgs[CfgID(target)]
+		if c == nil {
+			return
+		}
+		s.MapCalls()
+		for _, o := range q.Ops {
+			if o.Del || !uniqueValue.MatchString(o.V) {
+				continue
+			}
+			for ci, call := range s.Calls {
+				if call == nil || call.Op.Kind != "set" {
+					continue
+				}
+				for _, mo := range call.Op.Targets[target] {
+					if !mo.Del && mo.V == o.V && mo.P.K() == o.P.K() {
+						if i := s.Rec.IndexOfCall(ci); i != 0 && i > uint64(c.Status.Applied.Index) && !m.pushedBefore(target, i) {
+							s.Report(m.id(), "resync-content", "unapplied-change-pushed", fmt.Sprintf("device %s: the re-synchronisation (%s) pushed %s=%s, written by transaction %d, while the applied index is %d", target, q.Task, o.P, o.V, i, c.Status.Applied.Index))
+						}
+					}
+				}
+			}
+		}
 		return
 	}
 	t, i, ok := taskProposal(q.Task)
